@@ -2616,8 +2616,8 @@ static Node *new_sub(Node *lhs, Node *rhs, Token *tok) {
   if (is_numeric(lhs->ty) && is_numeric(rhs->ty))
     return new_binary(ND_SUB, lhs, rhs, tok);
 
-  // VLA + num
-  if (lhs->ty->base && lhs->ty->base->kind == TY_VLA) {
+  // VLA - num
+  if (lhs->ty->base && lhs->ty->base->kind == TY_VLA && is_integer(rhs->ty)) {
     rhs = new_binary(ND_MUL, rhs, new_var_node(lhs->ty->base->vla_size, tok), tok);
     add_type(rhs);
     Node *node = new_binary(ND_SUB, lhs, rhs, tok);
@@ -2638,6 +2638,10 @@ static Node *new_sub(Node *lhs, Node *rhs, Token *tok) {
   if (lhs->ty->base && rhs->ty->base) {
     Node *node = new_binary(ND_SUB, lhs, rhs, tok);
     node->ty = ty_long;
+    if (lhs->ty->base->kind == TY_VLA) {
+      Node *sz = new_cast(new_var_node(lhs->ty->base->vla_size, tok), ty_long);
+      return new_binary(ND_DIV, node, sz, tok);
+    }
     return new_binary(ND_DIV, node, new_num(lhs->ty->base->size, tok), tok);
   }
 
